@@ -45,8 +45,9 @@ ValArgs(ln, cv) ==
 Dec(v) == IF v >= 900 THEN 899 - v ELSE v      \* cfg files cannot hold negative numbers: 900 = none, 901 = '*', 902 = '.' alone
 Init == st \in {[fn |-> "init", f |-> fn, cv |-> cv] : fn \in Fns, cv \in Convs}
 
-(* shapes: 1 = <dir>   2 = "a" <dir> "n"   3 = "%%" <dir>   4 = <dir> " %d"  *)
+(* shapes: 1 = <dir>   2 = "a" <dir> "n"   3 = "%%" <dir>   4 = <dir> " %d"   5 = "%%" <text of dir without its %> *)
 Build(shape, d) == CASE shape = 1 -> d [] shape = 2 -> <<97>> \o d \o <<110>> [] shape = 3 -> <<37, 37>> \o d [] shape = 4 -> d \o <<32, 37, 100>>
+                     [] shape = 5 -> <<37, 37>> \o Tail(d)         \* an escaped percent followed by the directive's text: all literals
 Next ==
   /\ st.fn = "init"
   /\ \E fi \in FlagSets, w \in {Dec(v) : v \in Widths}, p \in {Dec(v) : v \in Precs}, ln \in Lens, shape \in Shapes, loc \in {0, 1}, rel \in {0, 1, 3} :
@@ -54,29 +55,49 @@ Next ==
            d  == DirSeq(fi, w, p, ln, cv)
        IN \E sw \in StarArgs(w, IF p = -2 THEN -2 ELSE -1), sp \in (IF p = -2 THEN {<<<<1>>, <<3, 0, 0, 0>>>>, <<<<1>>, <<65535, 65535, 65535, 65535>>>>} ELSE {<<<<>>, <<>>>>}),
              va \in ValArgs(ln, cv) :
-            LET at == sw[1] \o sp[1] \o va[1] \o (IF shape = 4 THEN <<1>> ELSE <<>>)
-                av == sw[2] \o sp[2] \o va[2] \o (IF shape = 4 THEN <<42, 0, 0, 0>> ELSE <<>>)
+            LET at == IF shape = 5 THEN <<>> ELSE sw[1] \o sp[1] \o va[1] \o (IF shape = 4 THEN <<1>> ELSE <<>>)
+                av == IF shape = 5 THEN <<>> ELSE sw[2] \o sp[2] \o va[2] \o (IF shape = 4 THEN <<42, 0, 0, 0>> ELSE <<>>)
                 fmt == Build(shape, d)
                 x == Render(Parse(fmt), ArgsOf(at, av), loc, {<<>>})
                 tl == IF x.ok /\ x.texts # {} THEN Len(CHOOSE t \in x.texts : TRUE) ELSE 12
             IN /\ (loc = 1 => (cv \in {99, 115} /\ ln = "l"))          \* the locale only matters for lc / ls
                /\ (ln = "L" => cv \in FloatConvs) /\ (cv \in FloatConvs => ln \in {"", "L"})
-               /\ (cv \in {99, 115} => ln \in {"", "l"}) /\ (cv \in {37, 110} => ln = "")
+               /\ (cv \in {99, 115} => ln \in {"", "l"}) /\ (cv = 37 => ln = "") /\ (cv = 110 => ln # "L")
                /\ (cv = 37 => (fi = 0 /\ w = -1 /\ p = -1))             \* "%%" is the complete specification
+               /\ (shape = 5 => (w # -2 /\ p # -2))
                /\ st' = [fn |-> st.f, fmt |-> fmt, at |-> at, av |-> av, loc |-> loc, dmax |-> IF tl + rel = 0 THEN 1 ELSE tl + rel, tlen |-> tl,
                          shape |-> shape, fi |-> fi, w |-> w, p |-> p, ln |-> ln, cv |-> cv]
+(* ---- scanf formats for C09: pre-piece, an n directive (or its escaped text), post-piece; the input text is
+        synthesised so that every directive is actually reached.  Argument kind 7 = scratch target. ---- *)
+ScanPre == << <<>>, <<37, 100>>, <<37, 37>>, <<97>>, <<37, 42, 100>>, <<37, 51, 115>>, <<37, 37, 37, 37>> >>
+ScanPreInp == << <<>>, <<49, 50>>, <<37>>, <<97>>, <<55>>, <<120, 121, 122>>, <<37, 37>> >>
+ScanPreArgs == << <<>>, <<7>>, <<>>, <<>>, <<>>, <<7>>, <<>> >>
+ScanN == << <<37, 110>>, <<37, 108, 110>>, <<37, 104, 104, 110>>, <<37, 108, 108, 110>>, <<37, 53, 110>>, <<37, 42, 110>>, <<37, 37, 110>>, <<110>>, <<37, 104, 110>>, <<37, 106, 110>> >>
+ScanNHas == <<TRUE, TRUE, TRUE, TRUE, TRUE, FALSE, FALSE, FALSE, TRUE, TRUE>>
+ScanNInp == << <<>>, <<>>, <<>>, <<>>, <<>>, <<>>, <<37, 110>>, <<110>>, <<>>, <<>> >>
+ScanPost == << <<>>, <<32, 37, 100>> >>
+NextScan ==
+  /\ st.fn = "init" /\ st.cv = 110
+  /\ \E a \in 1..Len(ScanPre), b \in 1..Len(ScanN), c \in 1..Len(ScanPost) :
+       LET fmt == ScanPre[a] \o ScanN[b] \o ScanPost[c]
+           inp == ScanPreInp[a] \o ScanNInp[b] \o (IF c = 2 THEN <<32, 53>> ELSE <<>>)
+           at == ScanPreArgs[a] \o (IF ScanNHas[b] THEN <<6>> ELSE <<>>) \o (IF c = 2 THEN <<7>> ELSE <<>>)
+           av == [i \in 1..(4 * Len(at)) |-> IF Mod(i, 4) = 1 THEN 8 ELSE 0]
+       IN st' = [fn |-> "scan", fmt |-> fmt, inp |-> inp, at |-> at, av |-> av, hasn |-> ScanNHas[b], loc |-> 0, dmax |-> 0]
+SpecAll == Init /\ [][Next \/ NextScan]_st
 Spec == Init /\ [][Next]_st
 
 (* ---- grammar-level properties of the contract, checked on every enumerated call ---- *)
 DirOf(s) == LET P == Parse(s.fmt) IN CHOOSE i \in 1..Len(P) : P[i].k = "dir" /\ (s.shape # 3 \/ i > 1)
 ParserRecovers ==
-  st.fn # "init" =>
+  (st.fn \notin {"init", "scan"} /\ st.shape # 5) =>
     LET P == Parse(st.fmt)
         it == P[DirOf(st)]
     IN /\ it.cv = st.cv /\ it.len = st.ln /\ it.w = st.w /\ it.p = (IF st.p = -3 THEN 0 ELSE st.p)
        /\ it.fl = {FlagSeq(st.fi)[k] : k \in 1..Len(FlagSeq(st.fi))}
        /\ (st.shape = 3 => P[1].k = "dir" /\ P[1].cv = 37)
-NConvIffBuilt == st.fn # "init" => (HasNConv(st.fmt) <=> st.cv = 110)
+NConvIffBuilt == /\ st.fn \notin {"init", "scan"} => (HasNConv(st.fmt) <=> (st.cv = 110 /\ st.shape # 5))
+                 /\ st.fn = "scan" => (ScanHasNConv(st.fmt) <=> st.hasn)
 ArgsConsumed ==     \* a valid directive consumes exactly the arguments the C standard says
-  st.fn # "init" => LET x == Render(Parse(st.fmt), ArgsOf(st.at, st.av), st.loc, {<<>>}) IN x.err # -2
+  st.fn \notin {"init", "scan"} => LET x == Render(Parse(st.fmt), ArgsOf(st.at, st.av), st.loc, {<<>>}) IN x.err # -2
 =============================================================================
